@@ -273,7 +273,7 @@ enum MsgColor {
 }
 
 fn file_message(color: MsgColor, left: &str, right: &PathBuf) {
-    let right = format!("target {}", right.to_str().unwrap());
+    let right = format!("target {}", right.display());
     message(color, left, &right);
 }
 
@@ -340,7 +340,14 @@ fn run(name: &PathBuf, debugger_opts: Option<debugger::Options>, minimal: bool) 
 fn write_object_file(path: &Path, bytes: &[u8]) -> Result<()> {
     // The file to replace is what the path finally names: follow symbolic links, so that the
     // link stays a link and its target keeps its contents if writing fails
-    let path = &fs::canonicalize(path).unwrap_or_else(|_| path.to_path_buf());
+    let path = &fs::canonicalize(path).unwrap_or_else(|_| match fs::read_link(path) {
+        // A link to a file which does not exist yet: that file is the one to create
+        Ok(target) => match path.parent() {
+            Some(dir) => dir.join(target),
+            None => target,
+        },
+        Err(_) => path.to_path_buf(),
+    });
 
     // Anything but a regular file (device, pipe, ...) has no previous contents to preserve, and
     // must not be replaced by a regular file: write to it directly
